@@ -333,6 +333,12 @@ func runC07(r *mon.Run) {
 				w.Class("c07:stage:malleability")
 			}
 			opts := &secec.ECDSAOptions{Hash: h, RejectMalleable: rejectMall, Encoding: secec.EncodingASN1}
+			if i%2 == 1 {
+				hl, hcheck := hostileLayout(t.Digest, der)
+				if g := pub.Verify(hl[0], hl[1], opts); g != base || hcheck() != "" {
+					fail("Verify/ASN1:layout", fmt.Sprintf("Verify(ASN.1, hash=%v, rejectMalleable=%v) with digest and signature as sub-slices of one buffer (buffer change: %q)", h, rejectMall, hcheck()), g, base)
+				}
+			}
 			if g := pub.Verify(t.Digest, der, opts); g != base {
 				fail("Verify/ASN1", fmt.Sprintf("Verify(ASN.1, hash=%v, rejectMalleable=%v)", h, rejectMall), g, base)
 			}
